@@ -1245,7 +1245,14 @@ class CSemantics:
         to int type before performing the operation.
         """
         if expr.typ.is_promotable:
-            expr = self.coerce(expr, self.int_type)
+            # C11 6.3.1.1p2: int if it can represent all values of the
+            # original type, unsigned int otherwise.
+            if (not expr.typ.is_signed) and self.context.sizeof(
+                expr.typ
+            ) >= self.context.sizeof(self.int_type):
+                expr = self.coerce(expr, self.get_type(["unsigned", "int"]))
+            else:
+                expr = self.coerce(expr, self.int_type)
         return expr
 
     def equal_types(self, typ1, typ2):
@@ -1294,7 +1301,38 @@ class CSemantics:
         The common type is a type they can both be cast to.
         """
 
+        if typ1.is_integer and typ2.is_integer:
+            return self._get_common_integer_type(typ1, typ2)
         return max([typ1, typ2], key=lambda t: self._get_rank(t, location))
+
+    def _get_common_integer_type(self, typ1, typ2):
+        """Usual arithmetic conversions for two (promoted) integer types.
+
+        See C11 6.3.1.8.
+        """
+        rank1 = self.basic_ranks[typ1.type_id] // 10
+        rank2 = self.basic_ranks[typ2.type_id] // 10
+        if typ1.is_signed == typ2.is_signed:
+            # Same signedness: the type with the greater rank.
+            return typ2 if rank2 > rank1 else typ1
+
+        if typ1.is_signed:
+            signed_typ, signed_rank = typ1, rank1
+            unsigned_typ, unsigned_rank = typ2, rank2
+        else:
+            signed_typ, signed_rank = typ2, rank2
+            unsigned_typ, unsigned_rank = typ1, rank1
+
+        if unsigned_rank >= signed_rank:
+            return unsigned_typ
+        elif self.context.sizeof(signed_typ) > self.context.sizeof(
+            unsigned_typ
+        ):
+            # The signed type can represent all values of the unsigned type.
+            return signed_typ
+        else:
+            # The unsigned type corresponding to the signed type.
+            return self.get_type(["unsigned"] + signed_typ.type_id.split())
 
     basic_ranks = {
         types.BasicType.LONGDOUBLE: 110,
